@@ -110,7 +110,8 @@ def wl_plain(ctx, rng, case):
                 # export + load through a channel
                 chan = rng.choice(["bytes", "path", "fileobj", "hex", "to_disk", "realfile", "pathlib"])
                 if isinstance(f, P.BloomFilterOnDisk):
-                    chan = rng.choice(["bytes", "export_path", "reopen_same_cwd", "reopen_other_cwd", "reopen_relative", "to_memory_file"])
+                    chan = rng.choice(["bytes", "export_path", "reopen_same_cwd", "reopen_other_cwd", "reopen_relative", "to_memory_file", "export_and_continue",
+                                       "export_and_continue"])
                 case.op("reload", chan)
                 ctx.count(f"reload.{chan}")
                 ctx.count("op.reload")
@@ -148,6 +149,12 @@ def wl_plain(ctx, rng, case):
                     f.close()
                     f = P.BloomFilter(filepath=p2, **bl.kw_hash(hf))
                     path = None
+                elif chan == "export_and_continue":
+                    # the exporter stays in use after the export; the copy must hold every key too
+                    p2 = sc.path("keep")
+                    f.export(p2)
+                    cp = P.BloomFilter(filepath=p2, **bl.kw_hash(hf))
+                    probe(ctx, cp, shadow, f"in the exported copy at step {step}", case)
                 elif chan == "to_memory_file":
                     f.close()
                     f = P.BloomFilter(filepath=path, **bl.kw_hash(hf))
@@ -220,6 +227,8 @@ def wl_expanding(ctx, rng, case):
     m, k = mk
     keys = gen.universe(rng, rng.randint(3, 40))
     hname, hf = gen.pick_hash(rng, keys)
+    if rng.random() < 0.1:
+        hname, hf = "hand_generous_depth", gen.GenerousHash(hf or _default_hf(), rng.randint(1, 4))
     sc = bl.Scratch(ctx, case)
     case.desc = {"est": est, "rate": rate, "bits": m, "hashes": k, "hash": hname, "n_keys": len(keys)}
     ctx.observe("bits_mod_8", m % 8)
